@@ -19,7 +19,8 @@
                            EITHER the arc maximum OR the arc minimum OR the first corner
                            (`if / elif / else`); the pole loop inserts the pole corner's nominal
                            longitude.
-    * `Variant.repaired` — `fixes/C13-*.patch`: the normal loop inserts the corner AND both arc
+    * `Variant.repaired` — `fixes/C13-*.patch`: the pole test is the winding of the boundary about the
+                           polar axis instead of a crossing parity; the normal loop inserts the corner AND both arc
                            extremes; a face with a corner on a pole always takes the pole loop, and
                            the pole loop replaces the (meaningless) longitude of a corner that sits
                            on the pole by the longitude of the edge's other end.
@@ -204,6 +205,10 @@ structure Fn (K : Type) where
   /-- the test of `_unique_points`: Euclidean distance over the norm of the second point below
       `ERROR_TOLERANCE` (on exact direction vectors: same direction) -/
   nearPt : V3 K → V3 K → Bool
+  /-- `np.arctan2(y, x)` -/
+  atan2 : K → K → K
+  /-- `np.pi` -/
+  pi : K
 
 section geom
 variable {K : Type} [Add K] [Sub K] [Mul K] [Div K] [Neg K] [OfNat K 0] [OfNat K 1]
@@ -337,7 +342,7 @@ def location (edges : List (Edge K)) : Loc :=
 def poleVec (north : Bool) : V3 K := ⟨0, 0, if north then 1 else -1⟩
 def refPoint : V3 K := ⟨1, 0, 0⟩
 
-/-- `_pole_point_inside_polygon(pole, face_edge_cart)` -/
+/-- AS-IS `_pole_point_inside_polygon(pole, face_edge_cart)`: parity of the crossings of a reference arc -/
 def poleInside (F : Fn K) (north : Bool) (edges : List (Edge K)) : Bool :=
   let pole : V3 K := poleVec north
   match location edges, north with
@@ -356,15 +361,46 @@ def summ (F : Fn K) (halfPi : K) (north : Bool) (e : Edge K) : ES K :=
     mx := extremeLat F halfPi true e.a e.b, mn := extremeLat F halfPi false e.a e.b,
     n1Pole := F.samePt e.a pole, onEdge := onGca F e.a e.b pole }
 
-/-- the two pole flags of `_populate_face_latlon_bound`: the parity count, and — repaired — also
-    "some corner sits on that pole" (a face with a corner on a pole contains it, whatever the
-    crossing count made of the two edges that end there) -/
+/-! ### REPAIRED pole test: winding of the boundary about the polar axis
+  (`fixes/C13-pole-winding.patch`; the parity count above stays as the AS-IS transcription) -/
+
+/-- signed longitude increment along the arc `a → b` (shorter than half a turn, missing the axis):
+    the angle between the horizontal projections of the end points, in `(−π, π]` -/
+def lonIncrement (F : Fn K) (a b : V3 K) : K :=
+  F.atan2 (a.x * b.y - a.y * b.x) (a.x * b.x + a.y * b.y)
+
+/-- sum of the longitude increments of the edges -/
+def winding (F : Fn K) (edges : List (Edge K)) : K :=
+  edges.foldl (fun s e => s + lonIncrement F e.a e.b) 0
+
+/-- the corners are listed counter-clockwise seen from outside: the area vector `Σ aᵢ × bᵢ` points
+    to the same side as the corner sum -/
+def isCcw (edges : List (Edge K)) : Bool :=
+  let A := edges.foldl (fun s e => vadd s (cross e.a e.b)) (⟨0, 0, 0⟩ : V3 K)
+  let M := edges.foldl (fun s e => vadd s e.a) (⟨0, 0, 0⟩ : V3 K)
+  decide (0 < dot A M)
+
+/-- some edge starts on the pole or passes through it (then the pole counts as inside) -/
+def touchesPole (F : Fn K) (north : Bool) (edges : List (Edge K)) : Bool :=
+  edges.any fun e => F.samePt e.a (poleVec north) || onGca F e.a e.b (poleVec north)
+
+/-- REPAIRED `_pole_point_inside_polygon(pole, face_edge_cart)`: pole on the boundary, or the
+    boundary winds once about the axis and the orientation says it is this pole -/
+def poleInsideWinding (F : Fn K) (north : Bool) (edges : List (Edge K)) : Bool :=
+  if touchesPole F north edges then true
+  else
+    let w := winding F edges
+    if F.abs w < F.pi then false
+    else (decide (0 < w) == isCcw edges) == north
+
+/-- the two pole flags of `_populate_face_latlon_bound`: as-is the parity count; repaired the winding
+    test, and also "some corner sits on that pole" -/
 def poleFlags (F : Fn K) (v : Variant) (edges : List (Edge K)) : Bool × Bool :=
-  let corner (north : Bool) : Bool :=
-    match v with
-    | .asIs => false
-    | .repaired => edges.any fun e => F.samePt e.a (poleVec north)
-  (poleInside F true edges || corner true, poleInside F false edges || corner false)
+  match v with
+  | .asIs => (poleInside F true edges, poleInside F false edges)
+  | .repaired =>
+    let corner (north : Bool) : Bool := edges.any fun e => F.samePt e.a (poleVec north)
+    (poleInsideWinding F true edges || corner true, poleInsideWinding F false edges || corner false)
 
 /-- `_populate_face_latlon_bound(face_edges_cartesian, face_edges_lonlat_rad)` with the defaults
     of `Grid.bounds` (every edge a great-circle arc) -/
